@@ -620,7 +620,12 @@ def h_info():
                 }
                 for f, info in cls.model_fields.items()
             }
-    return {**TEMPLATE_INFO, "pid": os.getpid(), "fields": fields}
+    try:
+        from soundevent.io.aoef import AOEF_VERSION as version  # noqa: PLC0415
+    except Exception:  # noqa: BLE001
+        version = None
+    return {**TEMPLATE_INFO, "pid": os.getpid(), "fields": fields,
+            "aoef_version": version}
 
 
 def h_describe(src):
@@ -632,22 +637,30 @@ def h_describe(src):
     return {"outcome": "value", **describe(obj)}
 
 
+def _audio_args(audio_dir, audio_as):
+    """(positional, keyword) arguments carrying the audio directory: by
+    keyword, or -- "str:pos" / "path:pos" -- in its documented position."""
+    if audio_dir is None:
+        return (), {}
+    how, _, pos = audio_as.partition(":")
+    value = _as(audio_dir, how)
+    return ((value,), {}) if pos == "pos" else ((), {"audio_dir": value})
+
+
 def h_save(src, path, path_as="str", audio_dir=None, audio_as="str", api="io"):
     from soundevent import io as sio  # noqa: PLC0415
 
     obj = _resolve_source(src)
-    kwargs = {}
-    if audio_dir is not None:
-        kwargs["audio_dir"] = _as(audio_dir, audio_as)
+    args, kwargs = _audio_args(audio_dir, audio_as)
     try:
         if api == "aoef":
             from soundevent.io import aoef  # noqa: PLC0415
 
-            aoef.save(obj, _as(path, path_as), **kwargs)
+            aoef.save(obj, _as(path, path_as), *args, **kwargs)
         elif api == "infer":
-            sio.save(obj, _as(path, path_as), format=None, **kwargs)
+            sio.save(obj, _as(path, path_as), *args, format=None, **kwargs)
         else:
-            sio.save(obj, _as(path, path_as), **kwargs)
+            sio.save(obj, _as(path, path_as), *args, **kwargs)
     except Exception as exc:
         return _outcome_of(exc)
     return {"outcome": "ack"}
@@ -664,24 +677,100 @@ def h_load(
 ):
     from soundevent import io as sio  # noqa: PLC0415
 
-    kwargs = {}
-    if audio_dir is not None:
-        kwargs["audio_dir"] = _as(audio_dir, audio_as)
+    args, kwargs = _audio_args(audio_dir, audio_as)
     if type_arg is not None:
         kwargs["type"] = type_arg
     try:
         if api == "aoef":
             from soundevent.io import aoef  # noqa: PLC0415
 
-            obj = aoef.load(_as(path, path_as), **kwargs)
+            obj = aoef.load(_as(path, path_as), *args, **kwargs)
         elif api == "infer":
-            obj = sio.load(_as(path, path_as), format=None, **kwargs)
+            obj = sio.load(_as(path, path_as), *args, format=None, **kwargs)
         else:
-            obj = sio.load(_as(path, path_as), **kwargs)
+            obj = sio.load(_as(path, path_as), *args, **kwargs)
     except Exception as exc:
         return _outcome_of(exc)
     OBJECTS[handle] = obj
     return {"outcome": "value", **describe(obj)}
+
+
+def _collect_models(obj, pools, seen):
+    from pydantic import BaseModel  # noqa: PLC0415
+
+    if isinstance(obj, BaseModel):
+        if id(obj) in seen:
+            return
+        seen.add(id(obj))
+        pools.setdefault(_class_name(obj), []).append(obj)
+        for name in type(obj).model_fields:
+            _collect_models(getattr(obj, name, None), pools, seen)
+    elif isinstance(obj, (list, tuple)):
+        for item in obj:
+            _collect_models(item, pools, seen)
+    elif isinstance(obj, dict):
+        for item in obj.values():
+            _collect_models(item, pools, seen)
+
+
+def h_edit_loaded(handle, seed):
+    """Edit, in place, objects of a collection that ``load`` returned (the
+    way a program loads a project, corrects an annotation and saves it)."""
+    import random  # noqa: PLC0415
+
+    root = OBJECTS.get(handle)
+    if root is None:
+        return {"outcome": "skipped"}
+    pools = {}
+    _collect_models(root, pools, set())
+    rng = random.Random(seed)
+    done = []
+
+    def pick(name):
+        pool = pools.get(name) or []
+        return rng.choice(pool) if pool else None
+
+    for _ in range(rng.randint(2, 6)):
+        kind = rng.randrange(9)
+        if kind == 0 and (u := pick("User")) is not None:
+            u.name = f"edited {seed} {rng.randrange(1000)}"
+            done.append("user.name")
+        elif kind == 1 and (r := pick("Recording")) is not None:
+            r.latitude = rng.uniform(-90, 90)
+            r.rights = f"rights {rng.randrange(1000)}"
+            done.append("recording.latitude/rights")
+        elif kind == 2 and (r := pick("Recording")) is not None:
+            if r.tags and rng.random() < 0.5:
+                r.tags.pop()
+            elif (t := pick("Tag")) is not None:
+                r.tags.append(t)
+            done.append("recording.tags")
+        elif kind == 3 and (a := pick("SoundEventAnnotation")) is not None:
+            a.tags.reverse()
+            if a.notes:
+                a.notes[0].message = f"edited {rng.randrange(1000)}"
+                a.notes[0].is_issue = not a.notes[0].is_issue
+            done.append("annotation.tags/notes")
+        elif kind == 4 and (c := pick("Clip")) is not None:
+            c.end_time = c.end_time + 1.0
+            done.append("clip.end_time")
+        elif kind == 5 and (p_ := pick("SoundEventPrediction")) is not None:
+            p_.score = rng.random()
+            done.append("prediction.score")
+        elif kind == 6 and (m := pick("Match")) is not None:
+            m.affinity = rng.random()
+            done.append("match.affinity")
+        elif kind == 7 and (t := pick("AnnotationTask")) is not None:
+            if t.status_badges:
+                t.status_badges.pop()
+            done.append("task.badges")
+        elif kind == 8:
+            if hasattr(root, "description"):
+                root.description = f"described {rng.randrange(1000)}"
+            if hasattr(root, "name"):
+                root.name = f"name {rng.randrange(1000)}"
+            done.append("root.name/description")
+    return {"outcome": "ack", "edits": done, **describe(root)}
 
 
 def h_touch(world, seed):
@@ -836,6 +925,7 @@ HANDLERS = {
     "load": h_load,
     "forget": h_forget,
     "touch": h_touch,
+    "edit_loaded": h_edit_loaded,
     "merge": h_merge,
     "mem_save": h_mem_save,
     "mem_load": h_mem_load,
@@ -949,6 +1039,23 @@ def _verdict(fn):
     except Exception as exc:
         return {"verdict": "reject", "exc": type(exc).__name__}, None
     return {"verdict": "accept"}, obj
+
+
+def _stamp_version(doc_path):
+    """The harness's renderer does not know which format version the library
+    under test writes and accepts; the document carries the library's own."""
+    import json  # noqa: PLC0415
+
+    try:
+        from soundevent.io.aoef import AOEF_VERSION  # noqa: PLC0415
+    except Exception:  # noqa: BLE001
+        return
+    with shims.REAL_OPEN(doc_path, encoding="utf-8") as fp:
+        doc = json.load(fp)
+    if doc.get("version") != AOEF_VERSION:
+        doc["version"] = AOEF_VERSION
+        with shims.REAL_OPEN(doc_path, "w", encoding="utf-8") as fp:
+            json.dump(doc, fp, ensure_ascii=False)
 
 
 @register("arrange")
@@ -1067,6 +1174,31 @@ def h_arrange(spec, target, doc_path, handle, base_spec=None):
                     except TypeError:
                         live.sound_events = new
                     kwargs[key] = live
+            # a match of the base world that keeps its identifier is the
+            # *live* object too, brought to its new content by assignment
+            for k, j in enumerate(e.get("matches", [])):
+                if not (
+                    j < len(base_spec["matches"])
+                    and base_spec["matches"][j]["uuid"] == spec["matches"][j]["uuid"]
+                ):
+                    continue
+                m, live = spec["matches"][j], base_world.matches[j]
+                if m != base_spec["matches"][j]:
+                    try:
+                        live.source = (
+                            None if m.get("source") is None
+                            else base_world.se_predictions[m["source"]]
+                        )
+                        live.target = (
+                            None if m.get("target") is None
+                            else base_world.se_annotations[m["target"]]
+                        )
+                        if "affinity" in m:
+                            live.affinity = m["affinity"]
+                        live.score = m.get("score")
+                    except Exception:  # noqa: BLE001  (assignment refused)
+                        continue
+                kwargs["matches"][k] = live
     elif cls_name == "AnnotationProject":
         cls = data.AnnotationProject
         kwargs = world.root_kwargs("annotation_project")
@@ -1082,6 +1214,7 @@ def h_arrange(spec, target, doc_path, handle, base_spec=None):
     text = json.dumps({k: _dump(v, "json") for k, v in kwargs.items()})
     v_json, o_json = _verdict(lambda: cls.model_validate_json(text))
     out["paths"]["json"] = v_json
+    _stamp_version(doc_path)
     v_aoef, o_aoef = _verdict(lambda: sio.load(doc_path))
     out["paths"]["aoef"] = v_aoef
     canons = {}
@@ -1101,6 +1234,10 @@ def h_arrange(spec, target, doc_path, handle, base_spec=None):
 def _array_payload(arr, with_data=True):
     import numpy as np  # noqa: PLC0415
 
+    def plain(dim):
+        # a dimension may be named by a str-valued enum member
+        return dim.value if isinstance(dim, enum.Enum) else str(dim)
+
     coords = {}
     for dim in arr.dims:
         if dim not in arr.coords:
@@ -1111,10 +1248,10 @@ def _array_payload(arr, with_data=True):
             entry["values"] = b64(values.astype("<f8").tobytes())
         step = arr.coords[dim].attrs.get("step")
         entry["step"] = None if step is None else float(step)
-        coords[dim] = entry
+        coords[plain(dim)] = entry
     out = {
         "outcome": "value",
-        "dims": [str(d) for d in arr.dims],
+        "dims": [plain(d) for d in arr.dims],
         "shape": [int(n) for n in arr.shape],
         "coords": coords,
     }
@@ -1193,11 +1330,15 @@ def a_load_recording(recording, handle, audio_dir=None, audio_as="str"):
 
 
 @register("a_resample")
-def a_resample(source, target_samplerate, handle):
+def a_resample(source, target_samplerate, handle, transpose=False):
     from soundevent import audio  # noqa: PLC0415
 
     try:
-        arr = audio.resample(ARRAYS[source], target_samplerate)
+        src = ARRAYS[source]
+        if transpose:
+            # the same array, stored the other way round (time is not axis 0)
+            src = src.transpose(*reversed(src.dims))
+        arr = audio.resample(src, target_samplerate)
     except Exception as exc:
         return _outcome_of(exc)
     ARRAYS[handle] = arr
